@@ -4,7 +4,7 @@
 # usage: tools/seed_all.sh [jobs]
 cd /verif
 jobs=${1:-1}
-extra() { case "$1" in C19-w3a) echo "C18";; *) echo "";; esac; }
+extra() { case "$1" in C19-w3a) echo "C18";; C03-w2b) echo "C02";; C07-w2b) echo "C20";; C17-w2a) echo "C15";; *) echo "";; esac; }
 export -f extra
 ls -d seeded/*/ | xargs -P "$jobs" -I{} bash -c '
   d={}; id=$(basename $d); prop=$(/venv/bin/python -c "import json;print(json.load(open(\"$d/meta.json\"))[\"property\"])")
